@@ -87,6 +87,9 @@ Proof.
   apply N.eqb_eq in E. subst. intros H. f_equal. apply IH. exact H.
 Qed.
 
+Lemma strip_prefix_app p r : strip_prefix p (p ++ r) = Some r.
+Proof. induction p as [|a p IH]; [reflexivity|]. simpl. rewrite N.eqb_refl. exact IH. Qed.
+
 (* ------------------------------------------------------------------ lower-casing *)
 
 Definition is_special (c : N) : bool := (c =? 47) || (c =? 58) || (c =? 64) || (c =? 63) || (c =? 35).
@@ -171,4 +174,751 @@ Proof.
       cbn [map]. reflexivity.
     + apply forallb_forall. intros d Hd. apply negb_true_iff.
       destruct (f d) eqn:Ed; [|reflexivity]. rewrite <- (lower_char_reflects c d Hd (Hf d Ed)) in Ed. congruence.
+Qed.
+
+(* ------------------------------------------------------------------ the matcher *)
+
+Definition slash_led (x : str) : Prop := x = [] \/ exists r, x = 47 :: r.
+
+Lemma matches_inv r al : matches r al = true ->
+  al <> [] /\ existsb is_dot_segment (split_pred is_seg_delim r) = false /\
+  exists q, r = al ++ q /\ (q = [] \/ ends_with [47] al = true \/ slash_led q).
+Proof.
+  unfold matches. destruct al as [|a0 al0]; [cbn; discriminate|]. cbn [is_empty].
+  set (al := a0 :: al0).
+  destruct (existsb is_dot_segment (split_pred is_seg_delim r)); [discriminate|].
+  intros H. split; [discriminate|]. split; [reflexivity|].
+  destruct (str_eqb r al) eqn:E1.
+  - apply str_eqb_eq in E1. exists []. rewrite app_nil_r. split; [exact E1|left; reflexivity].
+  - destruct (starts_with al r) eqn:E2; [|discriminate]. cbn [negb] in H.
+    apply starts_with_iff in E2 as [q Hq]. exists q. split; [exact Hq|].
+    destruct (ends_with [47] al); [right; left; reflexivity|].
+    right. right. subst r. rewrite nth_error_app2 in H by lia. replace (length al - length al)%nat with 0%nat in H by lia.
+    destruct q as [|c q']; [discriminate|]. cbn [nth_error] in H.
+    destruct (N.eq_dec c 47) as [->|Hc]; [right; exists q'; reflexivity|].
+    exfalso. destruct c as [|p]; [discriminate|].
+    destruct p as [p|p|]; try discriminate; repeat (destruct p as [p|p|]; try discriminate); congruence.
+Qed.
+
+Lemma token_unique : forall A B C D : str,
+  A ++ B = C ++ D -> ~ In 47 A -> ~ In 47 C -> slash_led B -> slash_led D -> A = C /\ B = D.
+Proof.
+  induction A as [|a A IH]; intros B C D E HA HC HB HD.
+  - destruct C as [|c C]; [split; [reflexivity|exact E]|]. exfalso. simpl in E.
+    destruct HB as [->|[r ->]]; [discriminate|]. injection E as <- _. apply HC. left. reflexivity.
+  - destruct C as [|c C].
+    + exfalso. simpl in E. destruct HD as [->|[r ->]]; [discriminate|]. injection E as -> _. apply HA. left. reflexivity.
+    + simpl in E. injection E as -> E. destruct (IH B C D E) as [-> ->]; auto.
+      * intros H. apply HA. right. exact H.
+      * intros H. apply HC. right. exact H.
+Qed.
+
+(* segments: the non-empty pieces between delimiters *)
+Definition nonempty (p : str) : bool := negb (is_empty p).
+Definition segs (f : N -> bool) (x : str) : list str := filter nonempty (split_pred f x).
+
+Lemma split_pred_app_delim f a c x : f c = true ->
+  split_pred f (a ++ c :: x) = split_pred f a ++ split_pred f x.
+Proof.
+  intros Hc. induction a as [|d a IH]; simpl.
+  - rewrite Hc. reflexivity.
+  - destruct (f d); [rewrite IH; reflexivity|]. rewrite IH.
+    destruct (split_pred f a) eqn:E; [exfalso; eapply split_pred_nonnil; eauto|reflexivity].
+Qed.
+
+Lemma segs_app_delim f a c x : f c = true -> segs f (a ++ c :: x) = segs f a ++ segs f x.
+Proof. intros Hc. unfold segs. rewrite (split_pred_app_delim f a c x Hc). apply filter_app. Qed.
+
+Lemma segs_snoc_delim f a c : f c = true -> segs f (a ++ [c]) = segs f a.
+Proof. intros Hc. rewrite (segs_app_delim f a c [] Hc). unfold segs. simpl. apply app_nil_r. Qed.
+
+Lemma is_prefix_app a b : is_prefix a (a ++ b) = true.
+Proof. induction a as [|x a IH]; [reflexivity|]. simpl. rewrite str_eqb_refl. exact IH. Qed.
+
+Lemma is_prefix_refl a : is_prefix a a = true.
+Proof. rewrite <- (app_nil_r a) at 2. apply is_prefix_app. Qed.
+
+Lemma segs_prefix f P q : f 47 = true ->
+  (q = [] \/ ends_with [47] P = true \/ slash_led q) ->
+  is_prefix (segs f P) (segs f (P ++ q)) = true.
+Proof.
+  intros Hf [->|[H|[->|[q' ->]]]].
+  - rewrite app_nil_r. apply is_prefix_refl.
+  - apply ends_with_iff in H as [P0 ->]. rewrite (segs_snoc_delim f P0 47 Hf).
+    rewrite <- app_assoc. cbn [app]. rewrite (segs_app_delim f P0 47 q Hf). apply is_prefix_app.
+  - rewrite app_nil_r. apply is_prefix_refl.
+  - rewrite (segs_app_delim f P 47 q' Hf). apply is_prefix_app.
+Qed.
+
+Lemma delim_small c : is_seg_delim c = true -> c < 65.
+Proof. unfold is_seg_delim. rewrite !orb_true_iff, !N.eqb_eq. lia. Qed.
+
+Lemma segs_lower x : segs is_seg_delim (to_lower x) = map to_lower (segs is_seg_delim x).
+Proof.
+  unfold segs. rewrite (split_pred_lower is_seg_delim x delim_small).
+  induction (split_pred is_seg_delim x) as [|p l IH]; [reflexivity|]. cbn [map filter].
+  assert (E : nonempty (to_lower p) = nonempty p).
+  { unfold nonempty. destruct p as [|c p]; [reflexivity|]. destruct (to_lower (c :: p)) eqn:T; [|reflexivity].
+    apply (proj1 (to_lower_nil_iff _)) in T. discriminate T. }
+  rewrite E. destruct (nonempty p); cbn [map]; rewrite IH; reflexivity.
+Qed.
+
+(* every reference spelling of a dot segment lower-cases to one the matcher rejects *)
+Lemma ref_dot_rejected sg : ref_is_dot sg = true -> is_dot_segment (to_lower sg) = true.
+Proof.
+  unfold ref_is_dot. rewrite mem_str_In. intros H.
+  assert (A : forallb (fun x => is_dot_segment (to_lower x)) ref_dot_spellings = true) by (vm_compute; reflexivity).
+  rewrite forallb_forall in A. exact (A sg H).
+Qed.
+
+Lemma existsb_false_In {A} (f : A -> bool) l x : existsb f l = false -> In x l -> f x = false.
+Proof.
+  intros H Hx. destruct (f x) eqn:E; [|reflexivity].
+  assert (existsb f l = true) by (apply existsb_exists; exists x; auto). congruence.
+Qed.
+
+(* ------------------------------------------------------------------ the core argument *)
+
+Definition special_free (x : str) : bool := forallb (fun c => negb (is_special c)) x.
+Definition delim_led (x : str) : Prop := x = [] \/ exists c r, x = c :: r /\ is_seg_delim c = true.
+
+Lemma special_free_not_in x c : special_free x = true -> is_special c = true -> ~ In c x.
+Proof.
+  unfold special_free. rewrite forallb_forall. intros H Hc Hin. specialize (H c Hin). rewrite Hc in H. discriminate.
+Qed.
+
+Lemma special_free_lower x : special_free (to_lower x) = special_free x.
+Proof.
+  apply bool_eq_iff. unfold special_free. rewrite !forallb_forall. split; intros H c Hc.
+  - destruct (is_special c) eqn:E; [|reflexivity]. exfalso.
+    assert (Hin : In c (to_lower x)) by (apply to_lower_In_small; [apply special_small, E|exact Hc]).
+    specialize (H c Hin). rewrite E in H. discriminate.
+  - destruct (is_special c) eqn:E; [|reflexivity]. exfalso.
+    assert (Hin : In c x) by (apply (to_lower_In_small c x (special_small c E)); exact Hc).
+    specialize (H c Hin). rewrite E in H. discriminate.
+Qed.
+
+Lemma slash_led_lower x : slash_led x -> slash_led (to_lower x).
+Proof. intros [->|[r ->]]; [left; reflexivity|right]. exists (to_lower r). apply to_lower_cons_small. lia. Qed.
+
+Lemma ends_with_app_nonempty (H P : str) : P <> [] -> ends_with [47] (H ++ P) = ends_with [47] P.
+Proof.
+  intros HP. unfold ends_with. rewrite rev_app_distr.
+  destruct (rev P) as [|c r] eqn:E.
+  - exfalso. apply HP. rewrite <- (rev_involutive P), E. reflexivity.
+  - reflexivity.
+Qed.
+
+Lemma not_slash_take (x : str) : ~ In 47 (take_chars not_slash x).
+Proof.
+  intros H. pose proof (take_chars_all not_slash x) as A. rewrite forallb_forall in A.
+  specialize (A 47 H). discriminate.
+Qed.
+
+Lemma not_slash_drop (x : str) : slash_led (drop_while not_slash x).
+Proof.
+  destruct (drop_while_head not_slash x) as [->|(c & r & -> & Hc)]; [left; reflexivity|].
+  right. exists r. unfold not_slash in Hc. apply negb_false_iff, N.eqb_eq in Hc. subst. reflexivity.
+Qed.
+
+Lemma core_no_match T R ca h p :
+  ~ In 47 T -> slash_led R -> In 58 T ->
+  ca = h ++ p -> h <> [] -> special_free h = true -> slash_led p ->
+  matches (to_lower (T ++ R)) (to_lower ca) = false.
+Proof.
+  intros HT HR H58 -> Hh Hsf Hp. destruct (matches _ _) eqn:M; [|reflexivity]. exfalso.
+  apply matches_inv in M as (_ & _ & q & E & Hq).
+  rewrite !to_lower_app, <- app_assoc in E.
+  assert (Hr' : slash_led (to_lower p ++ q)).
+  { destruct Hp as [->|[p' ->]].
+    - cbn [to_lower flat_map app]. destruct Hq as [->|[Hq|Hq]]; [left; reflexivity| |exact Hq].
+      exfalso. rewrite app_nil_r in Hq. apply ends_with_iff in Hq as [a Ha].
+      apply (special_free_not_in (to_lower h) 47); [rewrite special_free_lower; exact Hsf|reflexivity|].
+      rewrite Ha. apply in_or_app. right. left. reflexivity.
+    - right. exists (to_lower p' ++ q). rewrite (to_lower_cons_small 47 p') by lia. reflexivity. }
+  destruct (token_unique (to_lower T) (to_lower R) (to_lower h) (to_lower p ++ q) E) as [E1 _].
+  - intros H. apply HT. apply (to_lower_In_small 47 T); [lia|exact H].
+  - apply (special_free_not_in (to_lower h) 47); [rewrite special_free_lower; exact Hsf|reflexivity].
+  - apply slash_led_lower. exact HR.
+  - exact Hr'.
+  - apply (special_free_not_in (to_lower h) 58); [rewrite special_free_lower; exact Hsf|reflexivity|].
+    rewrite <- E1. apply to_lower_In_small; [lia|exact H58].
+Qed.
+
+Lemma core_match X pu ca h p :
+  ~ In 47 X -> delim_led pu ->
+  ca = h ++ p -> h <> [] -> special_free h = true -> slash_led p -> ~ In 63 p -> ~ In 35 p ->
+  matches (to_lower (X ++ pu)) (to_lower ca) = true ->
+  to_lower X = to_lower h /\ special_free X = true /\ slash_led pu /\
+  is_prefix (map to_lower (segs is_seg_delim p)) (map to_lower (segs is_seg_delim pu)) = true /\
+  existsb ref_is_dot (segs is_seg_delim pu) = false.
+Proof.
+  intros HX Hpu -> Hh Hsf Hp H63 H35 M.
+  apply matches_inv in M as (_ & Hdots & q & E & Hq).
+  rewrite !to_lower_app in E. rewrite to_lower_app in Hdots. rewrite <- app_assoc in E.
+  pose proof (special_free_lower h) as HsfL. rewrite Hsf in HsfL.
+  assert (Hr' : slash_led (to_lower p ++ q)).
+  { destruct Hp as [->|[p' ->]].
+    - cbn [to_lower flat_map app]. destruct Hq as [->|[Hq|Hq]]; [left; reflexivity| |exact Hq].
+      exfalso. rewrite app_nil_r in Hq. apply ends_with_iff in Hq as [a Ha].
+      apply (special_free_not_in (to_lower h) 47 HsfL); [reflexivity|].
+      rewrite Ha. apply in_or_app. right. left. reflexivity.
+    - right. exists (to_lower p' ++ q). rewrite (to_lower_cons_small 47 p') by lia. reflexivity. }
+  (* split the remote's path at its first slash *)
+  set (Q := take_chars not_slash pu). set (P' := drop_while not_slash pu).
+  assert (Epu : pu = Q ++ P') by apply take_drop.
+  rewrite Epu in E. rewrite to_lower_app, app_assoc in E.
+  destruct (token_unique (to_lower X ++ to_lower Q) (to_lower P') (to_lower h) (to_lower p ++ q) E) as [E1 E2].
+  - intros H. apply in_app_or in H as [H|H].
+    + apply HX. apply (to_lower_In_small 47 X); [lia|exact H].
+    + apply (not_slash_take pu). apply (to_lower_In_small 47 Q); [lia|exact H].
+  - apply (special_free_not_in (to_lower h) 47 HsfL). reflexivity.
+  - apply slash_led_lower. apply not_slash_drop.
+  - exact Hr'.
+  - (* the token is special-free, so the path starts with a slash *)
+    assert (HQ : Q = []).
+    { destruct Hpu as [Hpu|(c & r & Hpu & Hc)].
+      - subst Q. rewrite Hpu. reflexivity.
+      - destruct (c =? 47) eqn:E47.
+        + apply N.eqb_eq in E47. subst Q. rewrite Hpu. subst c. reflexivity.
+        + exfalso. assert (Hsp : is_special c = true).
+          { unfold is_seg_delim in Hc. unfold is_special. rewrite E47 in Hc |- *. cbn [orb] in Hc |- *.
+            apply orb_true_iff in Hc as [Hc|Hc]; rewrite Hc; rewrite ?orb_true_r; reflexivity. }
+          apply (special_free_not_in (to_lower h) c HsfL Hsp).
+          rewrite <- E1. apply in_or_app. right.
+          apply to_lower_In_small; [apply special_small, Hsp|].
+          subst Q. rewrite Hpu. cbn [take_chars]. unfold not_slash at 1. rewrite E47. left. reflexivity. }
+    rewrite HQ in E1, Epu. cbn [to_lower flat_map] in E1. rewrite app_nil_r in E1. cbn [app] in Epu.
+    assert (HsX : special_free X = true) by (rewrite <- special_free_lower, E1; exact HsfL).
+    assert (Hled : slash_led pu) by (rewrite Epu; apply not_slash_drop).
+    split; [exact E1|]. split; [exact HsX|]. split; [exact Hled|]. rewrite <- Epu in E2. split.
+    + rewrite <- !segs_lower, E2.
+      destruct (to_lower p) as [|c0 P0] eqn:EP.
+      * reflexivity.
+      * apply segs_prefix; [reflexivity|].
+        destruct Hq as [Hq|[Hq|Hq]]; [left; exact Hq| |right; right; exact Hq].
+        right. left. rewrite <- Hq. symmetry. rewrite <- EP. rewrite to_lower_app in Hq |- *. apply ends_with_app_nonempty.
+        rewrite EP. discriminate.
+    + destruct (existsb ref_is_dot (segs is_seg_delim pu)) eqn:D; [|reflexivity]. exfalso.
+      apply existsb_exists in D as (sg & Hsg & Hdot). unfold segs in Hsg. apply filter_In in Hsg as [Hsg Hne].
+      destruct Hled as [Hnil|[pu' Hpu']]; [rewrite Hnil in Hsg; destruct Hsg as [<-|[]]; discriminate|].
+      rewrite Hpu' in Hsg, Hdots. cbn [split_pred] in Hsg. change (is_seg_delim 47) with true in Hsg. cbv iota in Hsg.
+      destruct Hsg as [<-|Hsg]; [discriminate|].
+      rewrite (to_lower_cons_small 47 pu') in Hdots by lia.
+      rewrite (split_pred_app_delim is_seg_delim (to_lower X) 47 (to_lower pu') eq_refl) in Hdots.
+      rewrite existsb_app in Hdots. apply orb_false_iff in Hdots as [_ Hdots].
+      rewrite (split_pred_lower is_seg_delim pu' delim_small) in Hdots.
+      assert (Hin : In (to_lower sg) (map to_lower (split_pred is_seg_delim pu'))) by (apply in_map; exact Hsg).
+      pose proof (ref_dot_rejected sg Hdot) as Hr. rewrite (existsb_false_In _ _ _ Hdots Hin) in Hr. discriminate.
+Qed.
+
+(* ------------------------------------------------------------------ the two parsers, form by form *)
+
+Definition ne58 (c : N) : bool := negb (c =? 58).
+
+Definition ref_parse_t (t : str) : option ref_url :=
+  match ref_split_scheme t with
+  | Some (sc, rest) =>
+    let stop := if is_ssh_scheme sc then not_slash else not_delim in
+    ref_authority FUrl sc (take_chars stop rest) (drop_while stop rest)
+  | None =>
+    let head := take_chars ne58 t in
+    match drop_while ne58 t with
+    | _ :: path =>
+      if mem_char 47 head then
+        ref_authority FBare [] (take_chars not_delim t) (drop_while not_delim t)
+      else
+        match ref_authority FScp [] head (47 :: path) with
+        | Some d => match r_port d with None => Some d | Some _ => None end
+        | None => None
+        end
+    | [] => ref_authority FBare [] (take_chars not_delim t) (drop_while not_delim t)
+    end
+  end.
+
+Lemma ref_parse_unfold u : ref_parse u = ref_parse_t (pre_url u).
+Proof. reflexivity. Qed.
+
+Definition trim_slash (x : str) : str := trim_start_matches (N.eqb 47) x.
+
+Lemma normalize_unfold u : normalize u = to_lower (trim_slash (normalize_core (pre_url u))).
+Proof. reflexivity. Qed.
+
+Lemma trim_slash_id x : ~ In 47 (firstn 1 x) -> trim_slash x = x.
+Proof.
+  destruct x as [|c r]; [reflexivity|]. cbn [firstn]. intros H.
+  unfold trim_slash, trim_start_matches. cbn [drop_while].
+  destruct (47 =? c) eqn:E; [|reflexivity]. apply N.eqb_eq in E. subst. exfalso. apply H. left. reflexivity.
+Qed.
+
+Lemma trim_slash_app A R : A <> [] -> ~ In 47 A -> trim_slash (A ++ R) = A ++ R.
+Proof.
+  intros HA H47. apply trim_slash_id. destruct A as [|c A]; [contradiction|]. cbn [app firstn].
+  intros [E|[]]. apply H47. left. exact E.
+Qed.
+
+(* after_last / before_last *)
+Lemma after_last_none c x : ~ In c x -> after_last c x = x /\ before_last c x = None.
+Proof.
+  induction x as [|a r IH]; [split; reflexivity|]. intros H.
+  assert (Hr : ~ In c r) by (intros H'; apply H; right; exact H').
+  assert (Ha : (a =? c) = false) by (apply N.eqb_neq; intros ->; apply H; left; reflexivity).
+  destruct (IH Hr) as [IH1 IH2]. cbn [after_last before_last].
+  rewrite (proj2 (mem_char_false c r) Hr), Ha, IH2. split; reflexivity.
+Qed.
+
+Lemma after_last_no_c c x : ~ In c (after_last c x).
+Proof.
+  induction x as [|a r IH]; [exact (fun H => H)|]. cbn [after_last].
+  destruct (mem_char c r) eqn:M; [exact IH|].
+  apply mem_char_false in M. destruct (a =? c) eqn:E; [exact M|].
+  intros [H|H]; [apply N.eqb_neq in E; congruence|exact (M H)].
+Qed.
+
+Lemma before_last_some c x b : before_last c x = Some b -> x = b ++ c :: after_last c x.
+Proof.
+  revert b. induction x as [|a r IH]; intros b; [discriminate|]. cbn [before_last after_last].
+  destruct (before_last c r) as [h|] eqn:B.
+  - intros H. injection H as <-. 
+    assert (M : mem_char c r = true).
+    { apply mem_char_In. rewrite (IH h eq_refl). apply in_or_app. right. left. reflexivity. }
+    rewrite M. cbn [app]. f_equal. apply IH. reflexivity.
+  - destruct (a =? c) eqn:E; [|discriminate]. intros H. injection H as <-.
+    apply N.eqb_eq in E. subst a.
+    assert (M : mem_char c r = false).
+    { apply mem_char_false. intros Hin. clear IH. induction r as [|y r IHr]; [contradiction|].
+      cbn [before_last] in B. destruct (before_last c r) eqn:B'; [discriminate|].
+      destruct (y =? c) eqn:Ey; [discriminate|]. destruct Hin as [->|Hin]; [rewrite N.eqb_refl in Ey; discriminate|].
+      exact (IHr eq_refl Hin). }
+    rewrite M. reflexivity.
+Qed.
+
+Lemma after_last_suffix c x : exists a, x = a ++ after_last c x.
+Proof.
+  induction x as [|y r [a IH]]; [exists []; reflexivity|]. cbn [after_last].
+  destruct (mem_char c r); [exists (y :: a); cbn [app]; f_equal; exact IH|].
+  destruct (y =? c); [exists [y]; reflexivity|exists []; reflexivity].
+Qed.
+
+(* what ref_authority returns *)
+Lemma ref_authority_some form sc A R d : ref_authority form sc A R = Some d ->
+  r_form d = form /\ r_scheme d = sc /\ r_path d = R /\ r_userinfo d = before_last 64 A /\
+  r_host d = take_chars ne58 (after_last 64 A) /\ r_host d <> [] /\
+  r_port d = match drop_while ne58 (after_last 64 A) with _ :: p => Some p | [] => None end.
+Proof.
+  unfold ref_authority. fold ne58.
+  destruct (take_chars ne58 (after_last 64 A)) as [|h0 h] eqn:Eh; [discriminate|].
+  destruct (drop_while ne58 (after_last 64 A)) as [|c p] eqn:Ep.
+  - intros H. injection H as <-. cbn. repeat split; discriminate.
+  - destruct (forallb is_ascii_digit p); [|discriminate]. intros H. injection H as <-. cbn. repeat split; discriminate.
+Qed.
+
+Lemma ne58_all_of_not_in x : ~ In 58 x -> forallb ne58 x = true.
+Proof.
+  intros H. apply forallb_forall. intros c Hc. unfold ne58. apply negb_true_iff, N.eqb_neq. intros ->. exact (H Hc).
+Qed.
+
+(* an authority free of '@' and ':' is its own host *)
+Lemma authority_plain form sc A R d : ref_authority form sc A R = Some d ->
+  ~ In 64 A -> ~ In 58 A -> r_host d = A /\ r_port d = None /\ r_userinfo d = None.
+Proof.
+  intros H H64 H58. apply ref_authority_some in H as (_ & _ & _ & Hu & Hh & _ & Hp).
+  destruct (after_last_none 64 A H64) as [E1 E2]. rewrite E1 in Hh, Hp. rewrite E2 in Hu.
+  destruct (take_chars_all_id ne58 A (ne58_all_of_not_in A H58)) as [T D]. rewrite T in Hh. rewrite D in Hp.
+  auto.
+Qed.
+
+Lemma special_free_no x c : special_free x = true -> is_special c = true -> ~ In c x.
+Proof. apply special_free_not_in. Qed.
+
+Definition user_ok (d : ref_url) : Prop :=
+  match r_userinfo d with
+  | None => True
+  | Some _ => match r_form d with FUrl => is_ssh_scheme (r_scheme d) = true | _ => True end
+  end.
+
+(* how the text X that the normaliser keeps in front of the path relates to the authority A the
+   reference reads *)
+Inductive xrel (X A : str) (d : ref_url) : Prop :=
+| XSame : X = A -> r_form d <> FScp -> (r_form d = FUrl -> is_ssh_scheme (r_scheme d) = false) -> xrel X A d
+| XSsh : X = after_last 64 A -> r_form d = FUrl -> is_ssh_scheme (r_scheme d) = true -> xrel X A d
+| XGit : A = p_git_at ++ X -> r_form d <> FUrl -> xrel X A d.
+
+Inductive shape (cu : str) (d : ref_url) : Prop :=
+| ShapeStd X A form sc : ref_authority form sc A (r_path d) = Some d -> xrel X A d ->
+    cu = X ++ r_path d -> ~ In 47 X -> delim_led (r_path d) -> shape cu d
+| ShapeColon T R : cu = T ++ R -> ~ In 47 T -> slash_led R -> In 58 T ->
+    ((r_form d = FScp /\ r_userinfo d <> Some (s "git")) \/
+     (r_form d = FUrl /\ r_scheme d <> s "https" /\ r_scheme d <> s "http" /\ r_scheme d <> s "ssh")) -> shape cu d.
+
+Lemma not_delim_take_no47 x : ~ In 47 (take_chars not_delim x).
+Proof.
+  intros H. pose proof (take_chars_all not_delim x) as A. rewrite forallb_forall in A.
+  specialize (A 47 H). discriminate.
+Qed.
+
+Lemma not_delim_drop_led x : delim_led (drop_while not_delim x).
+Proof.
+  destruct (drop_while_head not_delim x) as [->|(c & r & -> & Hc)]; [left; reflexivity|].
+  right. exists c, r. split; [reflexivity|]. unfold not_delim in Hc. apply negb_false_iff in Hc. exact Hc.
+Qed.
+
+Lemma slash_led_delim_led x : slash_led x -> delim_led x.
+Proof. intros [->|[r ->]]; [left; reflexivity|right; exists 47, r; split; reflexivity]. Qed.
+
+(* the common case: the normalised text is the whole authority followed by the path *)
+Lemma shape_plain form sc A R d cu :
+  ref_authority form sc A R = Some d -> form <> FScp -> (form = FUrl -> is_ssh_scheme sc = false) ->
+  cu = A ++ R -> ~ In 47 A -> delim_led R -> shape cu d.
+Proof.
+  intros H Hf Hs E H47 HR. pose proof (ref_authority_some _ _ _ _ _ H) as (Hform & Hsc & HP & _).
+  apply (ShapeStd cu d A A form sc); rewrite ?HP; auto.
+  apply XSame; rewrite ?Hform, ?Hsc; auto.
+Qed.
+
+Lemma authority_nonempty form sc A R d : ref_authority form sc A R = Some d -> A <> [].
+Proof. intros H ->. discriminate. Qed.
+
+Lemma split_once_some c : forall x h p, split_once_c c x = Some (h, p) -> x = h ++ c :: p /\ ~ In c h.
+Proof.
+  induction x as [|a r IH]; intros h p; [discriminate|]. cbn [split_once_c].
+  destruct (a =? c) eqn:E.
+  - intros H. injection H as <- <-. apply N.eqb_eq in E. subst. split; [reflexivity|exact (fun H => H)].
+  - destruct (split_once_c c r) as [[h' t']|]; [|discriminate]. intros H. injection H as <- <-.
+    destruct (IH h' t' eq_refl) as [-> Hn]. split; [reflexivity|].
+    intros [H|H]; [apply N.eqb_neq in E; congruence|exact (Hn H)].
+Qed.
+
+Lemma split_once_none c : forall x, split_once_c c x = None -> ~ In c x.
+Proof.
+  induction x as [|a r IH]; [intros _ H; exact H|]. cbn [split_once_c].
+  destruct (a =? c) eqn:E; [discriminate|]. destruct (split_once_c c r) as [[h t]|]; [discriminate|].
+  intros _ [H|H]; [apply N.eqb_neq in E; congruence|exact (IH eq_refl H)].
+Qed.
+
+Lemma after_last_app c x y : ~ In c y -> after_last c (x ++ c :: y) = y.
+Proof.
+  intros Hy. induction x as [|a x IH]; cbn [app after_last].
+  - rewrite (proj2 (mem_char_false c y) Hy), N.eqb_refl. reflexivity.
+  - assert (M : mem_char c (x ++ c :: y) = true) by (apply mem_char_In, in_or_app; right; left; reflexivity).
+    rewrite M. exact IH.
+Qed.
+
+Lemma span_until_eq x : span_until 47 x = (take_chars not_slash x, drop_while not_slash x).
+Proof.
+  induction x as [|a r IH]; [reflexivity|]. cbn [span_until take_chars drop_while]. unfold not_slash at 1 3.
+  destruct (a =? 47); [reflexivity|]. cbn [negb]. rewrite IH. reflexivity.
+Qed.
+
+Lemma rsplit_after c x : match rsplit_once c x with Some (_, h) => h | None => x end = after_last c x.
+Proof.
+  induction x as [|a r IH]; [reflexivity|]. cbn [rsplit_once after_last].
+  destruct (rsplit_once c r) as [[h t]|] eqn:E.
+  - assert (M : mem_char c r = true).
+    { clear IH. revert h t E. induction r as [|y r IHr]; intros h t E; [discriminate|]. cbn [rsplit_once] in E.
+      apply mem_char_In. destruct (rsplit_once c r) as [[h' t']|] eqn:E'.
+      - right. apply mem_char_In. exact (IHr h' t' eq_refl).
+      - destruct (y =? c) eqn:Ey; [|discriminate]. left. apply N.eqb_eq in Ey. exact Ey. }
+    rewrite M. exact IH.
+  - assert (M : mem_char c r = false).
+    { clear IH. apply mem_char_false. induction r as [|y r IHr]; [exact (fun H => H)|]. cbn [rsplit_once] in E.
+      destruct (rsplit_once c r) as [[h' t']|]; [discriminate|]. destruct (y =? c) eqn:Ey; [discriminate|].
+      intros [H|H]; [apply N.eqb_neq in Ey; congruence|exact (IHr eq_refl H)]. }
+    rewrite M. destruct (a =? c); reflexivity.
+Qed.
+
+Lemma split_scheme_some t sc rest : ref_split_scheme t = Some (sc, rest) ->
+  t = sc ++ s "://" ++ rest /\ sc <> [] /\ forallb scheme_char sc = true.
+Proof.
+  unfold ref_split_scheme. destruct (take_chars scheme_char t) as [|c sc'] eqn:E; [discriminate|].
+  destruct (scheme_start c); [|discriminate].
+  destruct (strip_prefix (s "://") (drop_while scheme_char t)) as [r|] eqn:P; [|discriminate].
+  intros H. injection H as <- <-. apply strip_prefix_eq in P.
+  split; [|split; [discriminate|rewrite <- E; apply take_chars_all]].
+  rewrite <- P, <- E. apply take_drop.
+Qed.
+
+Lemma shape_git_at form Y R d cu :
+  ref_authority form [] (p_git_at ++ Y) R = Some d -> form <> FUrl ->
+  cu = trim_slash (Y ++ R) -> ~ In 47 Y -> delim_led R -> shape cu d.
+Proof.
+  intros H Hf E H47 HR. pose proof (ref_authority_some _ _ _ _ _ H) as (Hform & _ & HP & Hu & Hh & Hne & Hp).
+  assert (HY : Y <> []) by (intros ->; rewrite Hh in Hne; apply Hne; reflexivity).
+  rewrite (trim_slash_app Y R HY H47) in E.
+  apply (ShapeStd cu d Y (p_git_at ++ Y) form []); rewrite ?HP; auto.
+  apply XGit; rewrite ?Hform; auto.
+Qed.
+
+Lemma trim_slash_take f x : take_chars f x <> [] -> ~ In 47 (take_chars f x) ->
+  trim_slash x = take_chars f x ++ drop_while f x.
+Proof. intros H1 H2. rewrite (take_drop f x) at 1. apply trim_slash_app; assumption. Qed.
+
+Lemma remote_shape_t t d : ref_parse_t t = Some d -> shape (trim_slash (normalize_core t)) d.
+Proof.
+  unfold normalize_core.
+  destruct (strip_prefix p_git_at t) as [rest|] eqn:G.
+  { (* git@... *)
+    apply strip_prefix_eq in G. subst t. unfold ref_parse_t.
+    change (ref_split_scheme (p_git_at ++ rest)) with (@None (str * str)). cbv iota.
+    change (take_chars ne58 (p_git_at ++ rest)) with (p_git_at ++ take_chars ne58 rest).
+    change (drop_while ne58 (p_git_at ++ rest)) with (drop_while ne58 rest).
+    change (take_chars not_delim (p_git_at ++ rest)) with (p_git_at ++ take_chars not_delim rest).
+    change (drop_while not_delim (p_git_at ++ rest)) with (drop_while not_delim rest).
+    assert (Bare : ref_authority FBare [] (p_git_at ++ take_chars not_delim rest) (drop_while not_delim rest) = Some d ->
+                   shape (trim_slash rest) d).
+    { intros H. apply (shape_git_at FBare (take_chars not_delim rest) (drop_while not_delim rest) d); auto.
+      - discriminate.
+      - rewrite <- take_drop. reflexivity.
+      - apply not_delim_take_no47.
+      - apply not_delim_drop_led. }
+    destruct (split_once_c 58 rest) as [[H P]|] eqn:S.
+    - destruct (split_once_some 58 rest H P S) as [-> H58].
+      destruct (take_chars_app_stop ne58 H 58 P (ne58_all_of_not_in H H58) eq_refl) as [T D]. rewrite T, D.
+      rewrite mem_char_app. change (mem_char 47 p_git_at) with false. cbn [orb].
+      destruct (mem_char 47 H) eqn:M; cbn [negb].
+      + exact Bare.
+      + destruct (ref_authority FScp [] (p_git_at ++ H) (47 :: P)) as [d0|] eqn:A; [|discriminate].
+        destruct (r_port d0); [discriminate|]. intros E. injection E as ->.
+        apply (shape_git_at FScp H (47 :: P) d); auto.
+        * discriminate.
+        * apply mem_char_false. exact M.
+        * right. exists 47, P. split; reflexivity.
+    - pose proof (split_once_none 58 rest S) as H58.
+      destruct (take_chars_all_id ne58 rest (ne58_all_of_not_in rest H58)) as [_ D]. rewrite D. exact Bare. }
+  destruct (strip_prefix p_https t) as [rest|] eqn:Hs.
+  { apply strip_prefix_eq in Hs. subst t. unfold ref_parse_t.
+    change (ref_split_scheme (p_https ++ rest)) with (Some (s "https", rest)). cbv iota beta.
+    change (is_ssh_scheme (s "https")) with false. cbv iota.
+    intros H. apply (shape_plain _ _ _ _ d _ H).
+    - discriminate.
+    - reflexivity.
+    - apply trim_slash_take; [exact (authority_nonempty _ _ _ _ _ H)|apply not_delim_take_no47].
+    - apply not_delim_take_no47.
+    - apply not_delim_drop_led. }
+  destruct (strip_prefix p_http t) as [rest|] eqn:Hp.
+  { apply strip_prefix_eq in Hp. subst t. unfold ref_parse_t.
+    change (ref_split_scheme (p_http ++ rest)) with (Some (s "http", rest)). cbv iota beta.
+    change (is_ssh_scheme (s "http")) with false. cbv iota.
+    intros H. apply (shape_plain _ _ _ _ d _ H).
+    - discriminate.
+    - reflexivity.
+    - apply trim_slash_take; [exact (authority_nonempty _ _ _ _ _ H)|apply not_delim_take_no47].
+    - apply not_delim_take_no47.
+    - apply not_delim_drop_led. }
+  destruct (strip_prefix p_ssh t) as [rest|] eqn:Hsh.
+  { apply strip_prefix_eq in Hsh. subst t. unfold ref_parse_t.
+    change (ref_split_scheme (p_ssh ++ rest)) with (Some (s "ssh", rest)). cbv iota beta.
+    change (is_ssh_scheme (s "ssh")) with true. cbv iota.
+    rewrite span_until_eq, rsplit_after.
+    set (A := take_chars not_slash rest). set (R := drop_while not_slash rest).
+    intros H. pose proof (ref_authority_some _ _ _ _ _ H) as (Hform & Hsc & HP & Hu & Hh & Hne & Hpt).
+    assert (HX : after_last 64 A <> []) by (intros E; rewrite E in Hh; apply Hne; exact Hh).
+    assert (H47 : ~ In 47 (after_last 64 A)).
+    { destruct (after_last_suffix 64 A) as [a Ea]. intros Hin. apply (not_slash_take rest). fold A. rewrite Ea.
+      apply in_or_app. right. exact Hin. }
+    apply (ShapeStd _ d (after_last 64 A) A FUrl (s "ssh")); rewrite ?HP.
+    - exact H.
+    - apply XSsh; [reflexivity|exact Hform|rewrite Hsc; reflexivity].
+    - apply trim_slash_app; assumption.
+    - exact H47.
+    - apply slash_led_delim_led, not_slash_drop. }
+  (* no known prefix: the text is used as it is *)
+  unfold ref_parse_t. destruct (ref_split_scheme t) as [[sc rest]|] eqn:S.
+  { intros HA. destruct (split_scheme_some t sc rest S) as (Et & Hne & Hall).
+    pose proof (ref_authority_some _ _ _ _ _ HA) as (Hform & Hsc & _).
+    apply (ShapeColon _ d (sc ++ [58]) (47 :: 47 :: rest)).
+    - rewrite Et. change (s "://") with [58; 47; 47]. rewrite <- app_assoc. cbn [app].
+      change (sc ++ 58 :: 47 :: 47 :: rest) with (sc ++ [58] ++ 47 :: 47 :: rest). rewrite app_assoc.
+      apply trim_slash_app.
+      + destruct sc; discriminate.
+      + intros H. apply in_app_or in H as [H|[H|[]]]; [|discriminate].
+        rewrite forallb_forall in Hall. specialize (Hall 47 H). discriminate.
+    - intros H. apply in_app_or in H as [H|[H|[]]]; [|discriminate].
+      rewrite forallb_forall in Hall. specialize (Hall 47 H). discriminate.
+    - right. eexists. reflexivity.
+    - apply in_or_app. right. left. reflexivity.
+    - right. split; [exact Hform|]. rewrite Hsc.
+      repeat split; intros ->; rewrite Et in *.
+      + change (s "https" ++ s "://" ++ rest) with (p_https ++ rest) in Hs. rewrite strip_prefix_app in Hs. discriminate.
+      + change (s "http" ++ s "://" ++ rest) with (p_http ++ rest) in Hp. rewrite strip_prefix_app in Hp. discriminate.
+      + change (s "ssh" ++ s "://" ++ rest) with (p_ssh ++ rest) in Hsh. rewrite strip_prefix_app in Hsh. discriminate. }
+  assert (Bare : ref_authority FBare [] (take_chars not_delim t) (drop_while not_delim t) = Some d ->
+                 shape (trim_slash t) d).
+  { intros H. apply (shape_plain _ _ _ _ d _ H).
+    - discriminate.
+    - discriminate.
+    - apply trim_slash_take; [exact (authority_nonempty _ _ _ _ _ H)|apply not_delim_take_no47].
+    - apply not_delim_take_no47.
+    - apply not_delim_drop_led. }
+  destruct (drop_while ne58 t) as [|c path] eqn:D; [exact Bare|].
+  destruct (mem_char 47 (take_chars ne58 t)) eqn:M; [exact Bare|].
+  destruct (ref_authority FScp [] (take_chars ne58 t) (47 :: path)) as [d0|] eqn:A; [|discriminate].
+  destruct (r_port d0); [discriminate|]. intros E. injection E as ->.
+  assert (Hc : c = 58).
+  { destruct (drop_while_head ne58 t) as [E|(c' & r' & E & Hc')]; rewrite D in E; [discriminate|].
+    injection E as <- <-. unfold ne58 in Hc'. apply negb_false_iff, N.eqb_eq in Hc'. exact Hc'. }
+  subst c. set (head := take_chars ne58 t) in *.
+  assert (Et : t = head ++ 58 :: path) by (rewrite <- D; apply take_drop).
+  apply mem_char_false in M.
+  apply (ShapeColon _ d (head ++ 58 :: take_chars not_slash path) (drop_while not_slash path)).
+  - rewrite Et at 1. rewrite (take_drop not_slash path) at 1.
+    change (head ++ 58 :: take_chars not_slash path ++ drop_while not_slash path)
+      with (head ++ (58 :: take_chars not_slash path) ++ drop_while not_slash path).
+    rewrite app_assoc. apply trim_slash_app.
+    + pose proof (authority_nonempty _ _ _ _ _ A). destruct head; [contradiction|discriminate].
+    + intros H. apply in_app_or in H as [H|[H|H]]; [exact (M H)|discriminate|exact (not_slash_take path H)].
+  - intros H. apply in_app_or in H as [H|[H|H]]; [exact (M H)|discriminate|exact (not_slash_take path H)].
+  - apply not_slash_drop.
+  - apply in_or_app. right. left. reflexivity.
+  - left. pose proof (ref_authority_some _ _ _ _ _ A) as (Hform & _ & _ & Hu & _).
+    split; [exact Hform|]. rewrite Hu. intros Hg. apply before_last_some in Hg.
+    rewrite Et, Hg in G. change (s "git" ++ 64 :: after_last 64 head) with (p_git_at ++ after_last 64 head) in G.
+    rewrite <- app_assoc, strip_prefix_app in G. discriminate.
+Qed.
+
+(* ------------------------------------------------------------------ from shapes to the verdict *)
+
+Lemma drop_while_nil_all f (x : str) : drop_while f x = [] -> forallb f x = true.
+Proof. induction x as [|c r IH]; [reflexivity|]. simpl. destruct (f c); [exact IH|discriminate]. Qed.
+
+Lemma ne58_all_not_in x : forallb ne58 x = true -> ~ In 58 x.
+Proof. rewrite forallb_forall. intros H Hin. specialize (H 58 Hin). discriminate. Qed.
+
+(* remote side: a kept text free of special characters is the host itself *)
+Lemma std_remote X A form sc d :
+  ref_authority form sc A (r_path d) = Some d -> xrel X A d -> special_free X = true ->
+  X = r_host d /\ r_port d = None /\ user_ok d.
+Proof.
+  intros H Hx Hsf. pose proof (ref_authority_some _ _ _ _ _ H) as (Hform & Hsc & _ & Hu & Hh & Hne & Hp).
+  assert (H64 : ~ In 64 X) by (apply (special_free_no X 64 Hsf); reflexivity).
+  assert (H58 : ~ In 58 X) by (apply (special_free_no X 58 Hsf); reflexivity).
+  destruct (take_chars_all_id ne58 X (ne58_all_of_not_in X H58)) as [T D].
+  destruct Hx as [E Hf Hs|E Hf Hs|E Hf].
+  - subst A. destruct (after_last_none 64 X H64) as [E1 E2]. rewrite E1 in Hh, Hp. rewrite E2 in Hu.
+    rewrite T in Hh. rewrite D in Hp. split; [auto|]. split; [exact Hp|]. unfold user_ok. rewrite Hu. exact I.
+  - rewrite <- E in Hh, Hp. rewrite T in Hh. rewrite D in Hp. split; [auto|]. split; [exact Hp|].
+    unfold user_ok. destruct (r_userinfo d); [|exact I]. rewrite Hf. exact Hs.
+  - subst A. change (p_git_at ++ X) with (s "git" ++ 64 :: X) in Hh, Hp.
+    rewrite (after_last_app 64 (s "git") X H64) in Hh, Hp. rewrite T in Hh. rewrite D in Hp.
+    split; [auto|]. split; [exact Hp|]. unfold user_ok. destruct (r_userinfo d); [|exact I].
+    destruct (r_form d); [contradiction|exact I|exact I].
+Qed.
+
+(* allow side: the conditions of ref_allow make the kept text the host, free of special characters *)
+Lemma std_allow X A form sc d :
+  ref_authority form sc A (r_path d) = Some d -> xrel X A d -> ~ In 47 X ->
+  ~ In 63 (r_host d) -> ~ In 35 (r_host d) -> r_port d = None ->
+  (r_form d = FBare -> r_userinfo d = None) ->
+  (r_form d = FScp -> r_userinfo d = Some (s "git")) ->
+  (r_form d = FUrl -> is_ssh_scheme (r_scheme d) = false -> r_userinfo d = None) ->
+  X = r_host d /\ special_free X = true.
+Proof.
+  intros H Hx H47 H63 H35 Hport Hbare Hscp Hurl.
+  pose proof (ref_authority_some _ _ _ _ _ H) as (Hform & Hsc & _ & Hu & Hh & Hne & Hp).
+  assert (P58 : ~ In 58 (after_last 64 A)).
+  { rewrite Hport in Hp. destruct (drop_while ne58 (after_last 64 A)) eqn:D; [|discriminate].
+    apply ne58_all_not_in, drop_while_nil_all, D. }
+  assert (Hhost : r_host d = after_last 64 A).
+  { rewrite Hh. apply (take_chars_all_id ne58 _ (ne58_all_of_not_in _ P58)). }
+  assert (Fin : X = after_last 64 A -> X = r_host d /\ special_free X = true).
+  { intros E. split; [rewrite Hhost; exact E|].
+    unfold special_free. apply forallb_forall. intros c Hc. apply negb_true_iff.
+    destruct (is_special c) eqn:S; [|reflexivity]. exfalso.
+    unfold is_special in S. rewrite !orb_true_iff, !N.eqb_eq in S.
+    destruct S as [[[[->| ->]| ->]| ->]| ->].
+    - exact (H47 Hc).
+    - apply P58. rewrite <- E. exact Hc.
+    - apply (after_last_no_c 64 A). rewrite <- E. exact Hc.
+    - apply H63. rewrite Hhost, <- E. exact Hc.
+    - apply H35. rewrite Hhost, <- E. exact Hc. }
+  destruct Hx as [E Hf Hs|E Hf Hs|E Hf].
+  - subst A. apply Fin.
+    assert (Hnone : r_userinfo d = None).
+    { destruct (r_form d) eqn:F; [apply Hurl; auto|contradiction|apply Hbare; reflexivity]. }
+    rewrite Hu in Hnone.
+    destruct (mem_char 64 X) eqn:M.
+    + exfalso. clear -Hnone M. induction X as [|a r IH]; [discriminate|]. cbn [before_last] in Hnone.
+      destruct (before_last 64 r) eqn:B; [discriminate|]. destruct (a =? 64) eqn:E; [discriminate|].
+      unfold mem_char in M. cbn [existsb] in M. rewrite N.eqb_sym, E in M. exact (IH eq_refl M).
+    + apply mem_char_false in M. symmetry. apply (after_last_none 64 X M).
+  - apply Fin. exact E.
+  - subst A. apply Fin. destruct (r_form d) eqn:F; [contradiction| |].
+    + pose proof (Hscp eq_refl) as Hg. rewrite Hu in Hg. apply before_last_some in Hg.
+      change (p_git_at ++ X) with (s "git" ++ 64 :: X) in Hg at 1.
+      apply app_inv_head in Hg. injection Hg as Hg. exact Hg.
+    + pose proof (Hbare eq_refl) as Hn. rewrite Hu in Hn. exfalso.
+      change (p_git_at ++ X) with (103 :: 105 :: 116 :: 64 :: X) in Hn. cbn [before_last] in Hn.
+      destruct (before_last 64 X); discriminate.
+Qed.
+
+Lemma ref_allow_some a d : ref_allow a = Some d ->
+  ref_parse a = Some d /\ ~ In 63 (r_host d) /\ ~ In 35 (r_host d) /\ ~ In 63 (r_path d) /\ ~ In 35 (r_path d) /\
+  r_port d = None /\
+  (r_form d = FBare -> r_userinfo d = None) /\
+  (r_form d = FScp -> r_userinfo d = Some (s "git")) /\
+  (r_form d = FUrl -> is_ssh_scheme (r_scheme d) = false -> r_userinfo d = None) /\
+  (r_form d = FUrl -> r_scheme d = s "ssh" \/ r_scheme d = s "https" \/ r_scheme d = s "http").
+Proof.
+  unfold ref_allow. destruct (ref_parse a) as [d0|]; [|discriminate].
+  destruct (negb (mem_char 63 (r_host d0)) && negb (mem_char 35 (r_host d0)) && negb (mem_char 63 (r_path d0)) && negb (mem_char 35 (r_path d0))) eqn:P; [|discriminate].
+  destruct (r_port d0) eqn:Port; [discriminate|]. cbn [andb].
+  match goal with |- (if ?u && ?sc then _ else _) = _ -> _ => destruct u eqn:U; [|discriminate]; destruct sc eqn:SC; [|discriminate] end.
+  intros E. injection E as <-. split; [reflexivity|].
+  rewrite !andb_true_iff, !negb_true_iff in P. destruct P as [[[P1 P2] P3] P4].
+  rewrite <- !mem_char_false. repeat split; auto.
+  - intros F. rewrite F in U. destruct (r_userinfo d0); [discriminate|reflexivity].
+  - intros F. rewrite F in U. destruct (r_userinfo d0) as [u|]; [|discriminate]. apply str_eqb_eq in U. rewrite U. reflexivity.
+  - intros F Hs. rewrite F in U, SC.
+    destruct (str_eqb (r_scheme d0) (s "ssh")) eqn:S1.
+    + apply str_eqb_eq in S1. rewrite S1 in Hs. discriminate.
+    + destruct (str_eqb (r_scheme d0) (s "https") || str_eqb (r_scheme d0) (s "http")); [|discriminate].
+      destruct (r_userinfo d0); [discriminate|reflexivity].
+  - intros F. rewrite F in SC. rewrite !orb_true_iff, !str_eqb_eq in SC. tauto.
+Qed.
+
+Lemma delim_led_no_query p : delim_led p -> ~ In 63 p -> ~ In 35 p -> slash_led p.
+Proof.
+  intros [->|(c & r & -> & Hc)] H63 H35; [left; reflexivity|]. right. exists r.
+  unfold is_seg_delim in Hc. rewrite !orb_true_iff, !N.eqb_eq in Hc. destruct Hc as [[->| ->]| ->].
+  - reflexivity.
+  - exfalso. apply H63. left. reflexivity.
+  - exfalso. apply H35. left. reflexivity.
+Qed.
+
+Lemma split_pred_ext f g (x : str) : (forall c, f c = g c) -> split_pred f x = split_pred g x.
+Proof. intros H. induction x as [|a r IH]; [reflexivity|]. simpl. rewrite H, IH. reflexivity. Qed.
+
+Lemma ref_segments_segs d : ref_segments d = segs is_seg_delim (r_path d).
+Proof.
+  unfold ref_segments, segs. f_equal. apply split_pred_ext. intros c. unfold not_delim, is_seg_delim.
+  apply negb_involutive.
+Qed.
+
+(* the theorem: whatever the matcher accepts lies under the allow-listed host and path prefix *)
+Theorem url_sound u a du da :
+  ref_parse u = Some du -> ref_allow a = Some da ->
+  matches (normalize u) (normalize a) = true -> ref_under du da = true.
+Proof.
+  intros Hu Ha M. rewrite !normalize_unfold in M.
+  apply ref_allow_some in Ha as (Hpa & A63 & A35 & P63 & P35 & Aport & Abare & Ascp & Aurl & Asch).
+  rewrite ref_parse_unfold in Hu, Hpa.
+  pose proof (remote_shape_t _ _ Hpa) as Sa. pose proof (remote_shape_t _ _ Hu) as Su.
+  destruct Sa as [Xa Aa fa sca HAa Hxa Eca H47a Hleda|T R _ _ _ _ Why].
+  2:{ exfalso. destruct Why as [[F Hg]|[F (N1 & N2 & N3)]].
+      - apply Hg, Ascp, F.
+      - destruct (Asch F) as [E|[E|E]]; congruence. }
+  destruct (std_allow Xa Aa fa sca da HAa Hxa H47a A63 A35 Aport Abare Ascp Aurl) as [EXa Sfa].
+  pose proof (ref_authority_some _ _ _ _ _ HAa) as (_ & _ & _ & _ & _ & Hnea & _).
+  assert (Hp_led : slash_led (r_path da)) by (apply delim_led_no_query; assumption).
+  destruct Su as [Xu Au fu scu HAu Hxu Ecu H47u Hledu|T R Ecu HT HR H58 _].
+  2:{ exfalso. rewrite Ecu in M.
+      rewrite (core_no_match T R _ Xa (r_path da) HT HR H58 Eca) in M; [discriminate| |exact Sfa|exact Hp_led].
+      rewrite EXa. exact Hnea. }
+  rewrite Ecu in M.
+  destruct (core_match Xu (r_path du) _ Xa (r_path da) H47u Hledu Eca) as (E1 & SfX & Hled & Hpre & Hdots); auto.
+  { rewrite EXa. exact Hnea. }
+  destruct (std_remote Xu Au fu scu du HAu Hxu SfX) as (EXu & Hport & Huser).
+  unfold ref_under. rewrite !ref_segments_segs, Hpre, Hdots, Hport, <- EXu, <- EXa, E1, str_eqb_refl. cbn [andb negb].
+  unfold user_ok in Huser. destruct (r_userinfo du); [|reflexivity].
+  destruct (r_form du); [exact Huser|reflexivity|reflexivity].
 Qed.
